@@ -237,16 +237,16 @@ Proof.
   unfold transpose_nd. rewrite !tab_length, tr_shape_swap. repeat split; reflexivity.
 Qed.
 
-(* OUTSIDE THE FINDING (unit quaternions, no improper flag on `other` nor on the
-   symmetry elements; flags of self are dropped by both modes):
+(* OUTSIDE THE FINDING (unit quaternions, no improper flag on `other`; the flags of
+   self are dropped by both modes; symmetry elements proper or improper):
    angle_with_outer(lazy=True, chunk_size=k) = angle_with_outer(lazy=False),
    shape and values, every chunk size, every pair of shapes *)
 Theorem awo_lazy_eq_eager k ss so (X Y S : list Rr) :
   (0 < k)%nat -> length X = size ss -> length Y = size so ->
-  all_unit X -> all_unit Y -> all_unit S -> all_proper Y -> all_proper S ->
+  all_unit X -> all_unit Y -> all_unit S -> all_proper Y ->
   awo_lazy ROps k ss so X Y S = awo_eager ROps ss so X Y S.
 Proof.
-  intros Hk HX HY UX UY US PY PS.
+  intros Hk HX HY UX UY US PY.
   destruct (awo_layout k ss so X Y S) as [F1 [F2 [L1 L2]]].
   apply injective_projections; [rewrite F1, F2; reflexivity|].
   apply (shaped_ext (ss ++ so) _ _ (ang ROps 0)); [exact L1|exact L2|].
@@ -266,28 +266,50 @@ Proof.
   unfold rmul, rinv. cbn [fst snd xorb].
   symmetry. apply sym_dot_proper.
   - apply qmul_unit; [exact Uy|]. rewrite qnorm2_conj. exact Ux.
-  - unfold all_unit, all_proper in *. rewrite Forall_forall in *. intros s Hs. split; auto.
+  - exact US.
 Qed.
 
 (* Orientation.get_distance_matrix = angle_with_outer(self, self) *)
 Corollary odm_lazy_eq_eager k s (X S : list Rr) :
-  (0 < k)%nat -> length X = size s -> all_unit X -> all_unit S -> all_proper X -> all_proper S ->
+  (0 < k)%nat -> length X = size s -> all_unit X -> all_unit S -> all_proper X ->
   awo_lazy ROps k s s X X S = awo_eager ROps s s X X S.
 Proof. intros. apply awo_lazy_eq_eager; assumption. Qed.
 
 (* FINDING (improper flags): element level, carried to the arrays by the two
    characterisations above *)
 Theorem awo_lazy_improper_refuted :
-  (* an improper `other`, proper symmetry {1} *)
-  (ang ROps (sym_dot_eager ROps [((1, 0, 0, 0), false)] ((1, 0, 0, 0), true)) = PI /\
-   ang ROps (sym_dot_lazy ROps [((1, 0, 0, 0), false)] (1, 0, 0, 0)) = 0) /\
-  (* all orientations proper, symmetry {1, m_z} *)
-  (ang ROps (sym_dot_eager ROps [((1, 0, 0, 0), false); ((0, 0, 0, 1), true)] ((0, 0, 0, 1), false)) = PI /\
-   ang ROps (sym_dot_lazy ROps [((1, 0, 0, 0), false); ((0, 0, 0, 1), true)] (0, 0, 0, 1)) = 0).
+  (* an improper `other`, symmetry {1}: eager angle pi, lazy angle 0 *)
+  ang ROps (sym_dot_eager ROps [((1, 0, 0, 0), false)] ((1, 0, 0, 0), true)) = PI /\
+  ang ROps (sym_dot_lazy ROps [((1, 0, 0, 0), false)] (1, 0, 0, 0)) = 0.
 Proof.
   destruct sym_dot_improper_pair_differs as [E1 E2].
-  destruct sym_dot_improper_symmetry_differs as [E3 E4]. cbv zeta in E3, E4.
-  rewrite E1, E2, E3, E4. repeat split; try apply ang_0; apply ang_1.
+  rewrite E1, E2. split; [apply ang_0 | apply ang_1].
+Qed.
+
+(* ... carried to the arrays: a one-element self, a one-element improper other *)
+Theorem awo_lazy_improper_refuted_arrays :
+  exists k ss so (X Y S : list Rr),
+    (0 < k)%nat /\ length X = size ss /\ length Y = size so /\ all_unit X /\ all_unit Y /\ all_unit S /\
+    awo_lazy ROps k ss so X Y S <> awo_eager ROps ss so X Y S.
+Proof.
+  exists 1%nat, [1%nat], [1%nat], [((1, 0, 0, 0), false)], [((1, 0, 0, 0), true)], [((1, 0, 0, 0), false)].
+  assert (U : qnorm2 ROps (1, 0, 0, 0) = 1) by (qunfold; ring).
+  repeat split; try reflexivity; try lia; try (repeat constructor; exact U).
+  intros E. apply (f_equal (fun r => aget (ang ROps 0) ([1%nat] ++ [1%nat]) (snd r) ([0%nat] ++ [0%nat]))) in E.
+  assert (V : valid [1%nat] [0%nat]) by (repeat constructor).
+  unfold awo_lazy, awo_lazy_with, awo_eager, awo_eager_with in E. cbn [snd] in E.
+  rewrite !aget_map in E.
+  destruct (ori_lazy_char 1 [1%nat] [1%nat] (drop_flags [((1, 0, 0, 0), false)]) [((1, 0, 0, 0), true)]
+              [((1, 0, 0, 0), false)] [0%nat] [0%nat]) as [_ [_ E1]]; try reflexivity; try lia; try exact V.
+  destruct (ori_eager_char [1%nat] [1%nat] (drop_flags [((1, 0, 0, 0), false)]) [((1, 0, 0, 0), true)]
+              [((1, 0, 0, 0), false)] [0%nat] [0%nat]) as [_ [_ E2]]; try reflexivity; try exact V.
+  change (o_ofZ ROps 0) with 0 in *. rewrite E1, E2 in E. clear E1 E2.
+  cbv [aget ravel nth drop_flags map fst snd rmul rinv xorb size fold_right Nat.mul Nat.add] in E.
+  replace (qmul ROps (1, 0, 0, 0) (qconj ROps (1, 0, 0, 0))) with ((1, 0, 0, 0) : Rq) in E
+    by (qunfold; tuple_eq; ring).
+  destruct awo_lazy_improper_refuted as [A1 A2].
+  assert (H0 : 0 = PI) by exact (eq_trans (eq_sym A2) (eq_trans E A1)).
+  pose proof PI_RGT_0. lra.
 Qed.
 
 (* ---------------------------------------------------------------- Misorientation.get_distance_matrix *)
